@@ -9,6 +9,7 @@ from tools import translate_loops
 
 JOBS = {
     "block": ("Gen_block.v", lambda repo: translate_loops.translate_block(repo)),
+    "interp": ("Gen_interp.v", lambda repo: translate_loops.translate_interp(repo)),
 }
 try:
     from tools import translate_more
